@@ -415,7 +415,9 @@ func (rw *rewriter) yields(f *ast.File, index bool) bool {
 					_ = st
 				default:
 					for _, h := range header(inner) {
-						if hasRecv(h) || rw.hasRepoIfaceCall(h) || rw.hasLockCall(h) {
+						if hasRecv(h) || rw.hasRepoIfaceCall(h) || rw.hasLockCall(h) || rw.isAtomicCall(h) {
+							// (R2d, atomics: lock-free code interleaves exactly there - a
+							// check-then-act on an atomic cursor is two statements)
 							before = true
 						}
 						if hasRecv(h) {
